@@ -785,6 +785,17 @@ operator('member-name-too-short', _sites(lambda i, c: bool(i) and bool(MEMBER_NA
 	_edit(lambda i, c: MEMBER_NAME.sub(lambda m: m.group(1)[0] + m.group(2), c)))
 operator('type-name-too-short', _sites(lambda i, c: not i and bool(TYPE_DECL.match(c))),
 	_edit(lambda i, c: TYPE_DECL.sub(lambda m: m.group(1) + m.group(2)[0], c, count=1)))
+# characters outside every name class (ASCII neighbours of the letter ranges included), from the third character on
+for _label, _char in (('underscore', '_'), ('caret', '^'), ('bracket', '['), ('backslash', '\\'), ('backtick', '`'), ('at-sign', '@'),
+		('brace', '{'), ('hyphen', '-'), ('dot', '.')):
+	operator(f'type-name-with-{_label}', _sites(lambda i, c: not i and bool(TYPE_DECL.match(c)) and len(TYPE_DECL.match(c).group(2)) >= 2),
+		_edit(lambda i, c, ch=_char: TYPE_DECL.sub(lambda m: m.group(1) + m.group(2) + ch + 'x', c, count=1)))
+for _label, _char in (('capital', 'X'), ('caret', '^'), ('bracket', '['), ('backtick', '`'), ('at-sign', '@'), ('brace', '{'), ('hyphen', '-'), ('dot', '.')):
+	operator(f'member-name-with-{_label}', _sites(lambda i, c: bool(i) and bool(MEMBER_NAME.match(c))),
+		_edit(lambda i, c, ch=_char: MEMBER_NAME.sub(lambda m: m.group(1) + ch + 'x' + m.group(2), c)))
+for _label, _char in (('lower-case', 'x'), ('caret', '^'), ('backtick', '`'), ('hyphen', '-')):
+	operator(f'const-name-with-{_label}', _sites(lambda i, c: bool(i) and bool(CONST_NAME.match(c))),
+		_edit(lambda i, c, ch=_char: CONST_NAME.sub(lambda m: m.group(1) + ch + 'X' + m.group(2), c)))
 operator('unknown-keyword', _sites(lambda i, c: not i and bool(KEYWORD_LINE.match(c))),
 	_edit(lambda i, c: KEYWORD_LINE.sub('zzq', c, count=1)))
 operator('unknown-function', _sites(lambda i, c: not _is_import(c) and bool(FUNCTION_CALL.search(c))),
@@ -817,6 +828,18 @@ operator('member-outside-declaration',
 operator('struct-without-members',
 	_sites(lambda i, c: not i and bool(re.match(r'^(?:inline |abstract )?struct ', c))),
 	lambda lines, site: lines[:site + 1] + lines[_body_end(lines, site):])
+# stray blanks in front of a line (fewer than one indentation unit): a top-level statement that is not at column 0, and a member that is
+# deeper than the member before it
+for _blanks in (1, 2, 3):
+	operator(f'top-level-line-indented-by-{_blanks}-blanks',
+		# only after another column-0 statement: after a body the same edit is a partial dedent, which lark refuses with DedentError (no position)
+		lambda lines: [k for k, line in enumerate(lines) if line and line[0] not in ' \t#' and k > 0 and lines[k - 1] and lines[k - 1][0] not in ' \t#'],
+		lambda lines, site, n=_blanks: lines[:site] + [' ' * n + lines[site]] + lines[site + 1:])
+	operator(f'member-over-indented-by-{_blanks}-blanks',
+		lambda lines: [k for k in range(1, len(lines)) if lines[k] and lines[k][0] in ' \t' and lines[k - 1] and lines[k - 1][0] in ' \t'
+			and len(lines[k]) - len(lines[k].lstrip(' \t')) == len(lines[k - 1]) - len(lines[k - 1].lstrip(' \t'))
+			and not lines[k].lstrip(' \t').startswith('#') and not lines[k - 1].lstrip(' \t').startswith('#')],
+		lambda lines, site, n=_blanks: lines[:site] + [' ' * n + lines[site]] + lines[site + 1:])
 FINAL_EOL = 'deleted-final-line-end'
 
 
